@@ -278,6 +278,12 @@ ODD_ITEMS = [
     ("attr", "Clone, Debug, PartialEq", "struct S<T: ?Sized>(u8, dyn Tr + Send);"),
     ("attr", "Deref, DerefMut", "struct S(dyn Tr + Send);"),
     ("attr", "Deref", "struct S<T>(dyn Tr<T> + Send);"),
+    # several per-trait entries on one field / variant, and traits in the root list that have no entry of their own there: which entry a trait sees may not depend on hash order
+    ("attr", "Ord, PartialOrd, Eq, PartialEq, Hash, Clone, Debug", "struct H1<T> { #[derive_ex(Eq(bound(T: Eq)), Ord(bound(T: Ord)), Hash(bound(T: core::hash::Hash)), Clone(bound(T: Clone)))] a: T, b: u8 }"),
+    ("attr", "PartialEq, Hash, Clone", "struct H4<T> { #[derive_ex(Eq(bound(T: Eq)), Ord(bound(T: Ord)), PartialOrd(bound(T: PartialOrd)), Clone(bound(T: Clone)))] a: T }"),
+    ("derive", "", "#[derive_ex(PartialEq, PartialOrd, Hash)] enum H5<T> { #[derive_ex(Eq(bound(T: Eq)), Ord(bound(T: Ord)), PartialOrd(bound(T: Copy)), Hash(bound(T: Sized)))] A(T), #[derive_ex(Ord(bound(T: Ord)), Eq(bound(T: Eq)), PartialOrd(bound(T: Clone)))] B { x: T } }"),
+    ("attr", "PartialEq, PartialOrd, Clone, Debug, Default", "enum H2<T> { #[default] #[derive_ex(PartialOrd(bound(T: PartialOrd)), Clone(bound(T: Copy)), Default(bound(T: Default)))] A(#[derive_ex(Debug(bound(T: Sized)), Clone(bound(..)))] T), B }"),
+    ("derive", "", "#[derive_ex(Add, Sub, Neg, Not, AddAssign)] struct H3<T>(#[derive_ex(Add(bound(T: Copy)), Neg(bound(T: Clone)), SubAssign(bound(T: Sized)))] T, #[derive_ex(Sub(bound(..)), Not(bound()))] T);"),
     # the same text with another meaning in the next item (a name that is a parameter here and a concrete type there): nothing may be remembered from one expansion to the next
     ("attr", "Clone, Debug, PartialEq", "struct P1<U>(Vec<T>, Option<U>, [u8; N]);"),
     ("attr", "Clone, Debug, PartialEq", "struct P2<T>(Vec<T>, Option<U>, [u8; N]);"),
@@ -453,7 +459,7 @@ def run_expander_raw(reqs):
 def native_part(tier, rnd, out, extra_reqs=()):
     import json
     reqs = [q for q in (list(extra_reqs) + native_corpus(tier, rnd)) if (q[0] + q[1] + q[2]).strip()]
-    nproc = 3 if tier == "quick" else 8
+    nproc = 4 if tier == "quick" else 8
     t0 = time.time()
     # the same inputs again in fresh processes - in the same, in the reverse and in a shuffled order: the expansion of an input may not depend on what the process expanded before
     orders = [list(range(len(reqs)))]
